@@ -158,6 +158,12 @@ func checkCmd(args []string) int {
 		if budget == 0 {
 			budget = 240
 		}
+		if c := os.Getenv("SSASYM_BUDGET_CAP"); c != "" {
+			// dev aid: cap every run's wall-clock budget (used to size the registered configurations)
+			if n, e := strconv.Atoi(c); e == nil && n < budget {
+				budget = n
+			}
+		}
 		res, err := engine.Explore(in, cfg, nw, "/usr/bin/z3", 30000, time.Now().Add(time.Duration(budget)*time.Second), 200)
 		if err != nil {
 			fmt.Println("MACHINERY-CANNOT-RUN:", err)
